@@ -1,36 +1,48 @@
-import GoCrypt.Spec.SecretSafe
-import GoCrypt.Gen.Flow
+import GoCrypt.Props.C19Sound
 
 /-!
 # C19 — digest comparison time does not depend on where the digests differ
 
-The flow IR of every scheme's `Check` is regenerated from the current source on every run; the
-theorems below decide the syntactic-dataflow discipline on it.
+The flow IR of every scheme's `Check` is regenerated from the current source on every run.
+`secretSafe'` (Spec/FlowSem.lean) is the syntactic-dataflow discipline; it supersedes the first
+version `secretSafe` (Spec/SecretSafe.lean), for which the soundness proof attempt produced three
+machine-checked leaking witnesses (`gap_len_leaks`, `gap_field_leaks`, `gap_encoder_source_leaks` —
+kept in Props/C19Sound.lean as documentation of why the discipline is what it is).
+
+Obligations of this property (all in Props/C19Sound.lean):
+* the ten regenerated programs satisfy the discipline (`decide`),
+* the discipline is sound for a cost semantics in which every operation's cost may depend on
+  everything it can see, except the trusted constant-time primitives (`secretSafe'_sound`),
+* hence for every scheme the cost of a mismatching verification is independent of where the
+  digests differ (`<pkg>_mismatch_cost`, `mismatch_cost_independent_of_position`).
 -/
 
 namespace GoCrypt.C19
-open GoCrypt.Flow GoCrypt.Gen
 
-theorem secretSafe_argon2 : secretSafe argon2.flowCheck = true := by decide
-theorem secretSafe_bcrypt : secretSafe bcrypt.flowCheck = true := by decide
-theorem secretSafe_des : secretSafe des.flowCheck = true := by decide
-theorem secretSafe_desext : secretSafe desext.flowCheck = true := by decide
-theorem secretSafe_md5 : secretSafe md5.flowCheck = true := by decide
-theorem secretSafe_nthash : secretSafe nthash.flowCheck = true := by decide
-theorem secretSafe_sha1 : secretSafe sha1.flowCheck = true := by decide
-theorem secretSafe_sha256 : secretSafe sha256.flowCheck = true := by decide
-theorem secretSafe_sha512 : secretSafe sha512.flowCheck = true := by decide
-theorem secretSafe_sunmd5 : secretSafe sunmd5.flowCheck = true := by decide
-
-#print axioms secretSafe_argon2
-#print axioms secretSafe_bcrypt
-#print axioms secretSafe_des
-#print axioms secretSafe_desext
-#print axioms secretSafe_md5
-#print axioms secretSafe_nthash
-#print axioms secretSafe_sha1
-#print axioms secretSafe_sha256
-#print axioms secretSafe_sha512
-#print axioms secretSafe_sunmd5
+#print axioms secretSafe'_argon2
+#print axioms secretSafe'_bcrypt
+#print axioms secretSafe'_des
+#print axioms secretSafe'_desext
+#print axioms secretSafe'_md5
+#print axioms secretSafe'_nthash
+#print axioms secretSafe'_sha1
+#print axioms secretSafe'_sha256
+#print axioms secretSafe'_sha512
+#print axioms secretSafe'_sunmd5
+#print axioms secretSafe'_sound
+#print axioms mismatch_runs_agree
+#print axioms mismatch_cost_independent_of_position
+#print axioms mismatch_cost_independent_of_key
+#print axioms scheme_mismatch_cost
+#print axioms argon2_mismatch_cost
+#print axioms bcrypt_mismatch_cost
+#print axioms des_mismatch_cost
+#print axioms desext_mismatch_cost
+#print axioms md5_mismatch_cost
+#print axioms nthash_mismatch_cost
+#print axioms sha1_mismatch_cost
+#print axioms sha256_mismatch_cost
+#print axioms sha512_mismatch_cost
+#print axioms sunmd5_mismatch_cost
 
 end GoCrypt.C19
